@@ -41,8 +41,130 @@ pub fn dec_cases(t: bool) -> Vec<Case> {
     for a in 0..9u8 {
         c.push(Case::Dec { which: 3, a, b: 0, c: 0 });
     }
+    // which 20: long texts (a: text shape, b: operation, c: position class); see `run_long_text`
+    for a in 0..LONG_SHAPES as u8 {
+        for b in 0..LONG_OPS.len() as u8 {
+            for cc in 0..LONG_POS as u8 {
+                c.push(Case::Dec { which: 20, a, b, c: cc });
+            }
+        }
+    }
     c
 }
+
+const LONG_SHAPES: usize = 4;
+const LONG_POS: usize = 9;
+const LONG_OPS: [&str; 16] = ["push", "pop", "insert", "insert_str", "remove", "truncate", "split_off+push both", "drain(p..)", "drain(..p)", "drain(p..q)", "replace_range grow", "replace_range shrink", "retain ascii", "retain non-ascii", "extend chars", "clone+eq+hash"];
+
+fn long_text(shape: u8) -> String {
+    // ~1 KiB of text; widths 1..4 in different mixes; a long ASCII run in the middle for shape 3
+    let unit = match shape {
+        0 => "abcdefghij",
+        1 => "aé€😀",
+        2 => "😀€é",
+        _ => "é",
+    };
+    let mut t = String::new();
+    while t.len() < 1000 {
+        t.push_str(unit);
+        if shape == 3 && t.len() == 400 {
+            for _ in 0..300 {
+                t.push('x');
+            }
+        }
+    }
+    t
+}
+
+/// Byte positions of a position class: boundaries at the start, around the middle, at the end; and one
+/// non-boundary / out-of-range position (where the reference panics, the arena string must too).
+fn long_pos(t: &str, cls: u8) -> usize {
+    let b: Vec<usize> = t.char_indices().map(|x| x.0).chain(std::iter::once(t.len())).collect();
+    let m = b.len() / 2;
+    match cls {
+        0 => 0,
+        1 => b[1],
+        2 => b[m - 1],
+        3 => b[m],
+        4 => b[m + 1],
+        5 => b[b.len() - 2],
+        6 => t.len(),
+        7 => if t.is_char_boundary(b[m] + 1) { t.len() + 1 } else { b[m] + 1 },
+        _ => t.len() + 1,
+    }
+}
+
+macro_rules! long_op {
+    ($s:expr, $op:expr, $p:expr, $q:expr, $out:expr) => {{
+        let s = $s;
+        let (p, q) = ($p, $q);
+        match $op {
+            0 => { s.push('€'); s.push('a'); s.push('😀'); }
+            1 => { $out.push(s.pop().map_or(0, |c| c as u64)); $out.push(s.pop().map_or(0, |c| c as u64)); }
+            2 => { s.insert(p, 'é'); s.insert(p, 'z'); }
+            3 => { s.insert_str(p, "€uro😀"); }
+            4 => { $out.push(s.remove(p) as u64); }
+            5 => { s.truncate(p); }
+            6 => { let mut t = s.split_off(p); s.push_str("é!"); t.push('€'); $out.push(t.len() as u64); for b in t.bytes().take(64) { $out.push(b as u64); } }
+            7 => { let d: u64 = s.drain(p..).fold(7u64, |a, c| a.wrapping_mul(31).wrapping_add(c as u64)); $out.push(d); }
+            8 => { let d: u64 = s.drain(..p).fold(7u64, |a, c| a.wrapping_mul(31).wrapping_add(c as u64)); $out.push(d); }
+            9 => { let d: u64 = s.drain(p.min(q)..p.max(q)).fold(7u64, |a, c| a.wrapping_mul(31).wrapping_add(c as u64)); $out.push(d); }
+            10 => { s.replace_range(p.min(q)..p.max(q), "0123456789€€€€€€€€€€😀😀😀😀😀😀😀😀😀😀abcdefghijklmnopqrstuvwxyz"); }
+            11 => { s.replace_range(p.min(q)..p.max(q), "é"); }
+            12 => { s.retain(|c| c.is_ascii()); }
+            13 => { s.retain(|c| !c.is_ascii()); }
+            14 => { s.extend(['a', 'é', '€', '😀'].iter().copied().cycle().take(300)); }
+            _ => { let c = s.clone(); $out.push((c == *s) as u64); $out.push(c.len() as u64); }
+        }
+    }};
+}
+
+fn run_long_text(bump: &Bump, shape: u8, op: u8, cls: u8, v: &mut Vec<Violation>, h: &mut Hasher128) {
+    // everything the harness itself allocates happens under the callback guard (not arena traffic)
+    let (base, p, q) = {
+        let _g = Callback::enter();
+        let base = std::mem::ManuallyDrop::new(long_text(shape));
+        let p = long_pos(&base, cls);
+        let q = long_pos(&base, (cls + 3) % 7);
+        (base, p, q)
+    };
+    let what = LONG_OPS[op as usize];
+    // reference
+    let (r1, o1) = {
+        let _g = Callback::enter();
+        let mut o: Vec<u64> = Vec::new();
+        let mut s1 = (*base).clone();
+        let r = crate::util::quiet(|| std::panic::catch_unwind(std::panic::AssertUnwindSafe(|| long_op!(&mut s1, op, p, q, o))).is_ok());
+        ((r, s1), o)
+    };
+    // arena string (a neighbour is allocated first so that growth has to move the buffer)
+    let mut o0: Vec<u64> = { let _g = Callback::enter(); Vec::with_capacity(128) };
+    let mut s0 = BString::from_str_in(&base, bump);
+    let _neighbour = bump.alloc(7u64);
+    let ok0 = {
+        let o = &mut o0;
+        let sref = &mut s0;
+        crate::util::quiet(|| std::panic::catch_unwind(std::panic::AssertUnwindSafe(|| long_op!(sref, op, p, q, o))).is_ok())
+    };
+    let _g = Callback::enter();
+    let (ok1, s1) = r1;
+    if ok0 != ok1 {
+        push(v, "long_text_differs", format!("long_text_differs/{what}/panic"), format!("{what} at byte {p} (and {q}) of a {}-byte text: arena string {} but std {}", base.len(), if ok0 { "returned" } else { "panicked" }, if ok1 { "returned" } else { "panicked" }));
+    } else if s0.as_str() != s1.as_str() || o0 != o1 {
+        let at = s0.bytes().zip(s1.bytes()).position(|(a, b)| a != b).unwrap_or(s0.len().min(s1.len()));
+        push(v, "long_text_differs", format!("long_text_differs/{what}"), format!("{what} at byte {p} (and {q}) of a {}-byte text: results differ from std (lengths {} vs {}, first difference at byte {at}; returned values equal: {})", base.len(), s0.len(), s1.len(), o0 == o1));
+    }
+    if std::str::from_utf8(s0.as_bytes()).is_err() {
+        push(v, "invalid_utf8", format!("invalid_utf8/{what}/long"), format!("{what} at byte {p} of a long text left invalid UTF-8"));
+    }
+    h.u(s0.len() as u64);
+    h.u(ok0 as u64);
+    drop(o0);
+    drop(s1);
+    drop(o1);
+    drop(std::mem::ManuallyDrop::into_inner(base));
+}
+
 
 pub fn describe_dec(which: u8, a: u8, b: u8, c: u8, _t: bool) -> serde_json::Value {
     match which {
@@ -50,6 +172,7 @@ pub fn describe_dec(which: u8, a: u8, b: u8, c: u8, _t: bool) -> serde_json::Val
         2 => serde_json::json!({"decoders": "from_utf8 + from_utf8_lossy_in", "inputs": format!("all byte strings of length 4 starting with {:#04x} {:#04x}", a, b)}),
         1 => serde_json::json!({"decoders": "from_utf8 + from_utf8_lossy_in", "inputs": format!("all strings of length 2..=5 over the 26 class bytes starting with {:#04x} {:#04x}", CLASSES[a as usize], CLASSES[b as usize])}),
         4 => serde_json::json!({"decoders": "from_utf8 + from_utf8_lossy_in", "inputs": format!("all strings of length 6..=7 over the 26 class bytes starting with {:#04x} {:#04x} {:#04x}", CLASSES[a as usize], CLASSES[b as usize], CLASSES[c as usize])}),
+        20 => serde_json::json!({"long_text_shape": a, "operation": LONG_OPS[b as usize], "position_class": c}),
         _ => serde_json::json!({"decoders": "from_utf16_in", "inputs": format!("all u16 strings of length <= 6 over 9 unit classes starting with {:#06x}", UNITS[a as usize])}),
     }
 }
@@ -120,6 +243,10 @@ pub fn run_dec(envp: *mut ExecEnv, which: u8, a: u8, b: u8, c: u8, _t: bool, v: 
             ok
         };
         match which {
+            20 => {
+                run_long_text(&bump, a, b, c, v, &mut h);
+                n += 1;
+            }
             0 => {
                 if a == 0 && !go(&mut bump, &[], v, &mut h) {
                     return n;
